@@ -85,6 +85,13 @@ def project(d, keys, vals, tag, sd):
         pr["dflt"] = "none" if dv is None else tag(dv)
         r = d(7)
         pr["call"] = "NotImplemented" if r is NotImplemented else (r[1] if r[2] == (7,) else "bad-args")
+        # calling the dict calls the DEFAULT with exactly the arguments given - also when the first one is the
+        # name of a strategy
+        for k in keys:
+            r2 = d(k, 7)
+            c2 = "NotImplemented" if r2 is NotImplemented else (r2[1] if r2[2] == (k, 7) else "bad-args")
+            if c2 != pr["call"]:
+                pr["call"] = "name-argument:" + str(c2)
     return pr
 
 
